@@ -98,7 +98,38 @@ func mutatorListsInOrderAndComplete(c *Ctx) {
 			return ci.Common().IsInvoke() && strings.HasPrefix(ci.Common().Method.Name(), "MutateOperation")
 		}) {
 			n++
-			c.R.Check(an.CanReach(call, call), c.fnKey(fn)+"/"+call.Common().Method.Name()+"-in-loop", c.ipos(call), "called once per registered mutator", "the call of the mutators is not inside a loop any more (its body leaves the function on every path): only the first registered mutator runs — a complexity limit registered after another extension is never evaluated")
+			inLoop := an.CanReach(call, call)
+			if !inLoop && fn.Parent() != nil {
+				// the literal is handed to a helper of the package that calls its function parameter once per element
+				for _, pb := range fn.Parent().Blocks {
+					for _, pi := range pb.Instrs {
+						pc, ok := pi.(*ssa.Call)
+						if !ok {
+							continue
+						}
+						h := pc.Call.StaticCallee()
+						if h == nil || len(h.Blocks) == 0 {
+							continue
+						}
+						for k, a := range pc.Call.Args {
+							for _, d := range an.Defs(a) {
+								mc, ok := d.(*ssa.MakeClosure)
+								if !ok || mc.Fn != ssa.Value(fn) || k >= len(h.Params) {
+									continue
+								}
+								for _, hb := range h.Blocks {
+									for _, hi := range hb.Instrs {
+										if hc, ok := hi.(*ssa.Call); ok && an.Strip(hc.Call.Value) == ssa.Value(h.Params[k]) && an.CanReach(hi, hi) {
+											inLoop = true
+										}
+									}
+								}
+							}
+						}
+					}
+				}
+			}
+			c.R.Check(inLoop, c.fnKey(fn)+"/"+call.Common().Method.Name()+"-in-loop", c.ipos(call), "called once per registered mutator", "the call of the mutators is not inside a loop any more (its body leaves the function on every path): only the first registered mutator runs — a complexity limit registered after another extension is never evaluated")
 		}
 	}
 	if n < 2 {
@@ -113,23 +144,7 @@ func rawParamsReadAfterMutators(c *Ctx) {
 	if fn == nil {
 		return
 	}
-	var muts []ssa.Instruction
-	for _, call := range an.CallsIn(fn, func(ci ssa.CallInstruction, info an.CalleeInfo) bool {
-		if ci.Common().IsInvoke() && ci.Common().Method.Name() == "MutateOperationParameters" {
-			return true
-		}
-		h := info.Static
-		if h == nil || h.Pkg == nil || h.Pkg.Pkg.Path() != pkgExecutor || len(h.Blocks) == 0 {
-			return false
-		}
-		return len(an.CallsIn(h, func(c2 ssa.CallInstruction, _ an.CalleeInfo) bool {
-			return c2.Common().IsInvoke() && c2.Common().Method.Name() == "MutateOperationParameters"
-		})) > 0
-	}) {
-		if call.Parent() == fn {
-			muts = append(muts, call)
-		}
-	}
+	muts := mutatorCallPoints(fn, "MutateOperationParameters")
 	if len(muts) == 0 {
 		c.R.Fail("rawparams-read-after-mutators: CreateOperationContext calls no parameter mutator")
 		return
@@ -263,4 +278,51 @@ func standardQuerySelections(c *Ctx, doc *gast.QueryDocument) {
 		}
 		c.R.Check(len(missing) == 0, "introspection.Query/"+parent, "graphql/introspection/query.go", "selects "+strings.Join(kids, ", "), "the standard introspection query does not select "+strings.Join(missing, ", ")+" under "+parent+": a client cannot rebuild that part of the schema from the answer")
 	}
+}
+
+// mutatorCallPoints: the instructions of fn at which mutators of the given kind run: an invoke in fn itself, a call of a helper
+// of the package whose body invokes them, or a call that is handed a function literal of fn which invokes them
+// (applyMutators(list, func(m) { return m.MutateOperationParameters(ctx, params) })).
+func mutatorCallPoints(fn *ssa.Function, method string) []ssa.Instruction {
+	invokes := func(f *ssa.Function) bool {
+		if f == nil {
+			return false
+		}
+		for _, b := range f.Blocks {
+			for _, in := range b.Instrs {
+				if ci, ok := in.(ssa.CallInstruction); ok && ci.Common().IsInvoke() && ci.Common().Method.Name() == method {
+					return true
+				}
+			}
+		}
+		return false
+	}
+	var out []ssa.Instruction
+	for _, b := range fn.Blocks {
+		for _, in := range b.Instrs {
+			ci, ok := in.(ssa.CallInstruction)
+			if !ok {
+				continue
+			}
+			cc := ci.Common()
+			if cc.IsInvoke() && cc.Method.Name() == method {
+				out = append(out, in)
+				continue
+			}
+			if h := cc.StaticCallee(); h != nil && h.Pkg == fn.Pkg && invokes(h) {
+				out = append(out, in)
+				continue
+			}
+			for _, a := range cc.Args {
+				for _, d := range an.Defs(a) {
+					if mc, ok := d.(*ssa.MakeClosure); ok {
+						if cl, _ := mc.Fn.(*ssa.Function); cl != nil && cl.Parent() == fn && invokes(cl) {
+							out = append(out, in)
+						}
+					}
+				}
+			}
+		}
+	}
+	return out
 }
